@@ -12,6 +12,7 @@ Search    : the same crash enumeration with the property's own predicate on the 
 from __future__ import annotations
 
 import builtins
+import errno
 import re
 import json
 import os
@@ -137,9 +138,11 @@ def which(path: str):
     return None
 
 
-def run_write(d: Path, gen: int, kill_after: int | None, flags=(True, False)):
+def run_write(d: Path, gen: int, kill_after: int | None, flags=(True, False), fail_at: int | None = None):
     """run the REAL save_parameters(name, params(gen)) in a forked child, in directory d;
     SIGKILL the child right after its `kill_after`-th file-system operation (None: run to the end).
+    fail_at = i: the i-th ATTEMPTED write / rename / replace / remove / unlink / open-for-writing raises OSError(EIO)
+    instead of being performed (an I/O error the process survives; recorded as the event "!:<op>").
     Returns (events, status) where events is the list of operations performed."""
     r, w = os.pipe()
     pid = os.fork()
@@ -148,6 +151,13 @@ def run_write(d: Path, gen: int, kill_after: int | None, flags=(True, False)):
             os.close(r)
             os.chdir(d)
             count = [0]
+            attempts = [0]
+
+            def attempt(what):
+                attempts[0] += 1
+                if fail_at is not None and attempts[0] == fail_at:
+                    emit("!:" + what)
+                    raise OSError(errno.EIO, "injected I/O error", what)
 
             def emit(ev):
                 count[0] += 1
@@ -163,6 +173,7 @@ def run_write(d: Path, gen: int, kill_after: int | None, flags=(True, False)):
                     self.f, self.p = f, p
 
                 def write(self, s):
+                    attempt("W:" + self.p)
                     n = self.f.write(s)
                     emit("W:" + self.p)
                     return n
@@ -187,24 +198,29 @@ def run_write(d: Path, gen: int, kill_after: int | None, flags=(True, False)):
             def my_open(file, mode="r", *a, **k):
                 p = which(file) if isinstance(file, (str, os.PathLike)) else None
                 if p is not None and "w" in mode:
+                    attempt("O:" + p)
                     f = real_open(file, mode, *a, **k)
                     emit("O:" + p)
                     return Proxy(f, p)
                 return real_open(file, mode, *a, **k)
 
             def my_rename(a, b, *x, **k):
+                attempt(f"R:{which(a)}>{which(b)}")
                 real_rename(a, b, *x, **k)
                 emit(f"R:{which(a)}>{which(b)}")
 
             def my_replace(a, b, *x, **k):
+                attempt(f"R:{which(a)}>{which(b)}")
                 real_replace(a, b, *x, **k)
                 emit(f"R:{which(a)}>{which(b)}")
 
             def my_remove(a, *x, **k):
+                attempt(f"X:{which(a)}")
                 real_remove(a, *x, **k)
                 emit(f"X:{which(a)}")
 
             def my_unlink(a, *x, **k):
+                attempt(f"X:{which(a)}")
                 real_unlink(a, *x, **k)
                 emit(f"X:{which(a)}")
 
@@ -494,6 +510,61 @@ def _groups(idx):
     return out
 
 
+def explore_faults(ck: Check, writer: str, states, tmp_root: Path, worst: list):
+    """I/O errors the process SURVIVES: the i-th attempted file operation raises OSError instead of being
+    performed. Whatever the implementation then does (propagate, clean up, fall back to another way of writing),
+    the directory must stay safe at the end and at every crash point of what it does after the error, the restart
+    checkpoint must be the previous or the new generation, and the next uninterrupted write must install itself."""
+    WRITER[0], VARIANT[0] = writer, 0
+    for st in states:
+        d0 = Path(tempfile.mkdtemp(prefix="f-", dir=tmp_root))
+        materialise(d0, st, GEN0)
+        gens0 = {p: GEN0[p] for ch, p in zip(st, PATHS) if ch == "C"}
+        full_events, _tail = run_write(_clone(d0, tmp_root), FIRST_GEN, None)
+        n_attempts = sum(1 for e in full_events if e[0] in "OWRX")
+        # first / middle / last write attempts only; every other attempt
+        w_idx = [i for i, e in enumerate([e for e in full_events if e[0] in "OWRX"], 1) if e[0] == "W"]
+        keep_w = {w_idx[0], w_idx[len(w_idx) // 2], w_idx[-1]} if w_idx else set()
+        for i in range(1, n_attempts + 1):
+            if i in w_idx and i not in keep_w:
+                continue
+            d = _clone(d0, tmp_root)
+            events, tail = run_write(d, FIRST_GEN, None, fail_at=i)
+            got_st, g = classify(d, FIRST_GEN + 1)
+            hist = [{"from": st, "fail_at": i, "kill_after": None, "events": events, "writer": writer, "variant": 0,
+                     "mode": "io-error"}]
+            ck.case(key=("fault", writer, st, i), bucket=f"{writer}/io-error",
+                    sample={"writer": writer, "initial": st, "failing_attempt": i, "events": collapse([e for e in events if e[0] != "!"]),
+                            "ended": tail, "dir_after": got_st} if i == 2 else None)
+            if not safe_pred(got_st):
+                worst.append((hist, got_st))
+            else:
+                gen_check(ck, None, worst, hist, st, gens0, got_st, g, FIRST_GEN)
+            # crash points of whatever the implementation does AFTER the error
+            pos = next((n for n, e in enumerate(events, 1) if e[0] == "!"), None)
+            if pos is not None:
+                for k in range(pos + 1, len(events) + 1):
+                    d2 = _clone(d0, tmp_root)
+                    ev2, _t = run_write(d2, FIRST_GEN, k, fail_at=i)
+                    st2, g2 = classify(d2, FIRST_GEN + 1)
+                    h2 = [dict(hist[0], kill_after=k, events=ev2)]
+                    ck.case(key=("fault", writer, st, i, k), bucket=f"{writer}/io-error+crash")
+                    if not safe_pred(st2):
+                        worst.append((h2, st2))
+                    else:
+                        gen_check(ck, None, worst, h2, st, gens0, st2, g2, FIRST_GEN)
+                    shutil.rmtree(d2, ignore_errors=True)
+            # the next write, uninterrupted, must install itself
+            if safe_pred(got_st) and inv_pred(got_st):
+                run_write(d, FIRST_GEN + 1, None)
+                st3, g3 = classify(d, FIRST_GEN + 2)
+                if st3[0] != "C" or g3.get("name") != FIRST_GEN + 1:
+                    worst.append((hist + [{"from": got_st, "kill_after": None, "writer": writer, "variant": 0}], st3,
+                                  f"after an I/O error at attempt {i} the next complete write did not install generation {FIRST_GEN + 1}"))
+            shutil.rmtree(d, ignore_errors=True)
+        shutil.rmtree(d0, ignore_errors=True)
+
+
 GEN0 = {"name": 2, "new": 0, "old": 1}  # generations of the files a scenario starts with (all distinct)
 FIRST_GEN = 3                            # generation of the first checkpoint written on top of them
 
@@ -674,6 +745,12 @@ def run(ck: Check):
                 explore(ck, drv, writer, 0, 2 if ck.thorough() else 1, inv_states, tmp_root, worst)
             except Exception as e:  # the caller could not be constructed/driven: correspondence broken, not a crash
                 ck.mismatch("caller could not be driven", {"writer": writer, "error": f"{type(e).__name__}: {e}"})
+        # I/O errors the process survives (the i-th attempted operation raises), then crash points of the aftermath
+        for writer in ("save_parameters", "MCMC.save_full_state"):
+            try:
+                explore_faults(ck, writer, inv_states if ck.thorough() else ["CAA", "CCC", "ACC", "CAT", "ATC"], tmp_root, worst)
+            except Exception as e:  # noqa: BLE001
+                ck.mismatch("writer could not be driven under I/O errors", {"writer": writer, "error": f"{type(e).__name__}: {e}"})
         # API-independent crash points: SIGKILL injected by strace at every file-related system call
         sys_states = ["CAA", "CCC", "ACC"] if not ck.thorough() else [s for s in all_states if inv_pred(s)]
         for writer in ("save_parameters", "Optimizer.save_full_state", "MCMC.save_full_state"):
@@ -785,7 +862,7 @@ def replay(path: str) -> int:
             if h.get("mode") == "strace":
                 run_write_strace(d, gen, tuple(h["kill_before_syscall"]) if h["kill_before_syscall"] else None)
             else:
-                run_write(d, gen, h["kill_after"])
+                run_write(d, gen, h["kill_after"], fail_at=h.get("fail_at"))
             st1, gens1 = classify(d, gen + 1)
             w = []
             gen_check(None, None, w, [h], st0, gens0, st1, gens1, gen)
